@@ -31,7 +31,9 @@ def build(flavour="hooks"):
         if p.returncode != 0:
             raise MachineryError("harness build failed:\n" + p.stdout[-3000:] + p.stderr[-3000:])
         return libdir, libdir + "/hx/imbdrv"
-    p = sh([VERIF + "/tools/build_repo.sh"], timeout=1500, env={"VERIF_FLAVOUR": flavour})
+    # (VERIF_TRIAL_FLAVOUR + VERIF_REPO: a side build of another tree, e.g. a scratch worktree with a seeded change, in a
+    # build directory of its own - it must not displace the build of /repo that other running checks use)
+    p = sh([VERIF + "/tools/build_repo.sh"], timeout=1500, env={"VERIF_FLAVOUR": os.environ.get("VERIF_TRIAL_FLAVOUR", flavour)})
     if p.returncode != 0:
         raise MachineryError("library build failed:\n" + p.stderr[-3000:])
     libdir = p.stdout.strip().splitlines()[-1]
